@@ -54,6 +54,15 @@ def regenerated_client(ctx):
                  "#eval Nsq.Gen.ToolsRelayRedirect.n2hClient_CheckRedirect_translated\n")
     rc, out = ctx.run_cmd(["lake", "env", "lean", f], timeout=300, cwd=fw.LEAN)
     ls = [l.strip() for l in out.splitlines() if l.strip()]
+    if rc != 0 or len(ls) < 2 or not ls[0].isdigit():
+        # the tie module does not build (only the F45b client is accepted since /repo 833e42b): read the same code off the
+        # regenerated translation itself, so that a tree with F45b reverted is NAMED (client 0) instead of "untranslatable"
+        with open(f, "w") as fh:
+            fh.write("import Nsq.Gen.ToolsRelayRedirect\nopen Nsq.Gen.ToolsRelayRedirect in\n"
+                     "#eval (if n2hClient_CheckRedirect_fn true true 1 = 0 then 2 else 0 : Nat)\n"
+                     "#eval Nsq.Gen.ToolsRelayRedirect.n2hClient_CheckRedirect_translated\n")
+        rc, out = ctx.run_cmd(["lake", "env", "lean", f], timeout=300, cwd=fw.LEAN)
+        ls = [l.strip() for l in out.splitlines() if l.strip()]
     if rc != 0 or len(ls) < 2 or not ls[0].isdigit() or ls[1] != "true":
         ctx.log("redirect leg: could not evaluate the translated CheckRedirect of this tree: %s" % out[-400:])
         return None
